@@ -881,7 +881,22 @@ def verify_function(tu, reg, fname, prop='CVC', timeout_ms=None, kinds=None, rep
                 detail.append('remaining instances not tried (budget of this obligation used up)')
                 break
             r, dt, model, reason = 'unsat', 0.0, None, ''
-            for piece in goal_pieces(ob):
+            pieces = goal_pieces(ob)
+            if len(pieces) > 4 and not ob.cases:
+                # many conjuncts often share their quantifier instantiations: one quick attempt at the whole goal first
+                whole_ok = False
+                for strat in ('default', 'simp'):
+                    r0, dt0, _s = _run(strat, ob.pc, ob.goal, min(6000, timeout_ms * 0.1), 0)
+                    dt += dt0
+                    if r0 == z3.unsat:
+                        whole_ok = True
+                        break
+                if TRACE:
+                    print('      [trace] %s.%s path %d: whole goal (%d conjuncts) %s %.2fs' % (kind, name, ob.path, len(pieces), 'unsat' if whole_ok else 'not decided', dt))
+                if whole_ok:
+                    secs += dt
+                    continue
+            for piece in pieces:
                 r1, dt1, model1, reason1 = check(ob.pc, piece, timeout_ms)
                 dt += dt1
                 if TRACE:
